@@ -334,7 +334,7 @@ class C19(Check):
                     tf = os.path.join(meta, f"strace{i}.txt")
                     from vlib import core
                     r = hist.run_all(["strace", "-f", "-s", "4096", "-o", tf, "-e", "trace=%file", core.WILD, *args],
-                                     cwd=w, env=hist.clean_env(env), timeout=90)
+                                     cwd=w, env=hist.clean_env(env), timeout=240)
                     try:
                         traces[i] = open(tf, errors="replace").read()
                     except OSError:
